@@ -152,3 +152,35 @@ Example C13_comments_in_every_gap :
   Loader.load ([x31; x20; x23; x23; x23; x20; x61]) = Loader.LError 303 6 /\
   Loader.load ([x31; x20; x23; x23]) = Loader.LError 303 3.
 Proof. vm_compute. repeat split; reflexivity. Qed.
+
+(* block comments after the fix 7ac9eeb: the third '#' belongs to the opener and is not the first '#' of
+   the end.  "######" is the shortest block comment and "### ###", "#####a ###" (body "##a ") are complete;
+   "#####" and "####" open a block comment that never ends: "1 #####" LF is refused with ErrUnexpectedEOF
+   at its last byte (offset 7); "#######" is a gap only at the end of the text ("######" then the line
+   comment "#") *)
+Example C13_block_comment_opener :
+  LoaderProofs.is_gap [x23; x23; x23; x23; x23; x23] = true /\
+  LoaderProofs.is_gap [x23; x23; x23; x20; x23; x23; x23] = true /\
+  LoaderProofs.is_gap [x23; x23; x23; x23; x23; x61; x20; x23; x23; x23] = true /\
+  LoaderProofs.is_gap_end [x23; x23; x23; x23; x23] = false /\
+  LoaderProofs.is_gap_end [x23; x23; x23; x23] = false /\
+  LoaderProofs.is_gap [x23; x23; x23; x23; x23; x23; x23] = false /\
+  LoaderProofs.is_gap_end [x23; x23; x23; x23; x23; x23; x23] = true /\
+  Loader.load ([x31; x20; x23; x23; x23; x23; x23; x0a]) = Loader.LError 303 7 /\
+  Loader.load ([x31; x20; x23; x23; x23; x23; x0a]) = Loader.LError 303 6 /\
+  Loader.load ([x31; x20; x23; x23; x23; x23; x23; x23; x0a]) = Loader.load [x31] /\
+  Loader.load ([x5b; x23; x23; x23; x23; x23; x61; x20; x23; x23; x23; x31; x5d]) = Loader.load [x5b; x31; x5d].
+Proof. vm_compute. repeat split; reflexivity. Qed.
+
+(* a block comment inside the rules of an inline annotation (the model sets the annotation mode back to
+   inline after it): "1 // {min: 1 ### c ### }" LF scans to the end and loads the same node as
+   "1 // {min: 1 }" LF *)
+From JS Require SchemaScan.SchemaScanner.
+Example C13_block_comment_inside_inline_annotation :
+  let a1 := [x31; x20; x2f; x2f; x20; x7b; x6d; x69; x6e; x3a; x20; x31; x20; x23; x23; x23; x20; x63; x20; x23; x23; x23; x20; x7d; x0a] in
+  let a2 := [x31; x20; x2f; x2f; x20; x7b; x6d; x69; x6e; x3a; x20; x31; x20; x7d; x0a] in
+  snd (SchemaScanner.scan false a1) = SchemaScanner.Done /\
+  snd (SchemaScanner.scan false a2) = SchemaScanner.Done /\
+  Loader.load a1 = Loader.load a2 /\
+  (exists n, Loader.load a1 = Loader.LTree (Some n)).
+Proof. vm_compute. repeat split; try reflexivity. eexists; reflexivity. Qed.
